@@ -80,7 +80,20 @@ pub fn gen_nonempty_bytes(rng: &mut Rng, cfg: &GenCfg) -> Vec<u8> {
 }
 
 pub fn gen_text(rng: &mut Rng, cfg: &GenCfg) -> String {
-    const ALPH: &[&str] = &["a", "b", "z", "0", "-", "_", "é", "€", "𝄞", " ", "/"];
+    // 1 text in 6 is shaped like the structured strings applications put into these fields: URIs
+    // with (well-formed and malformed) percent escapes, e-mail addresses, dates, media types
+    if rng.chance(1, 6) {
+        const SCHEMES: &[&str] = &["http", "https", "urn", "coap+tcp", "a", "tag", "mailto", "1bad", ""];
+        const PARTS: &[&str] = &["//example.com/", "a", "%41", "%", "%€", "%4", "%zz", "%é", "%4𝄞", "?q=1", "#f", "@", ":", ".", "+", "=", "&", "é", "€", "2026-10-01T00:00:00Z", "user@example.com", " "];
+        let mut s = String::new();
+        s.push_str(SCHEMES[rng.below(SCHEMES.len())]);
+        s.push(':');
+        for _ in 0..rng.range(0, 5) {
+            s.push_str(PARTS[rng.below(PARTS.len())]);
+        }
+        return s;
+    }
+    const ALPH: &[&str] = &["a", "b", "z", "0", "-", "_", "é", "€", "𝄞", " ", "/", ":", "%", ".", "@", "?", "#", "=", "+", "\"", "\\", "\u{0}", "\n", ";"];
     let n = if rng.chance(cfg.big_chance, 64) { rng.range(20, cfg.big.min(5000)) } else { rng.range(0, 12) };
     let mut s = String::new();
     while s.len() < n {
@@ -442,4 +455,64 @@ pub fn gen_wire(rng: &mut Rng, ty: &str, tagged: bool, cfg: &GenCfg) -> Vec<u8> 
         it
     };
     refcbor::encode(&it)
+}
+
+/// A value of type family `ty` assembled in memory from a seeded model value through struct
+/// literals (never decoded from bytes): the "all values" side of encode-direction properties.
+pub fn gen_built(rng: &mut Rng, ty: &str, cfg: &GenCfg) -> Option<crate::endpoints::Decoded> {
+    use crate::endpoints::Decoded as D;
+    Some(match ty {
+        "Header" => D::Header(gen_header(rng, cfg, 0).to_coset()),
+        "ProtectedHeader" => D::Protected(gen_protected(rng, cfg, 0).to_coset()),
+        "CoseSignature" => D::Signature(gen_signature(rng, cfg, 0).to_coset()),
+        "CoseSign" => D::Sign(gen_sign(rng, cfg).to_coset()),
+        "CoseSign1" => D::Sign1(gen_sign1(rng, cfg).to_coset()),
+        "CoseMac" => D::Mac(gen_mac(rng, cfg).to_coset()),
+        "CoseMac0" => D::Mac0(gen_mac0(rng, cfg).to_coset()),
+        "CoseEncrypt" => D::Encrypt(gen_encrypt(rng, cfg).to_coset()),
+        "CoseEncrypt0" => D::Encrypt0(gen_encrypt0(rng, cfg).to_coset()),
+        "CoseRecipient" => D::Recipient(gen_recipient(rng, cfg, 0).to_coset()),
+        "CoseKey" => D::Key(gen_key(rng, cfg).to_coset()),
+        "CoseKeySet" => D::KeySet(coset::CoseKeySet((0..rng.range(0, 3)).map(|_| gen_key(rng, cfg).to_coset()).collect())),
+        "ClaimsSet" => D::Claims(gen_claims(rng, cfg).to_coset()),
+        "PartyInfo" => D::Party(gen_party(rng, cfg).to_coset()),
+        "SuppPubInfo" => D::SuppPub(gen_supp(rng, cfg).to_coset()),
+        "CoseKdfContext" => {
+            let k = gen_kdf(rng, cfg);
+            let mut b = coset::CoseKdfContextBuilder::new()
+                .party_u_info(k.party_u_info.to_coset())
+                .party_v_info(k.party_v_info.to_coset())
+                .supp_pub_info(k.supp_pub_info.to_coset());
+            for p in &k.supp_priv_info {
+                b = b.add_supp_priv_info(p.clone());
+            }
+            D::Kdf(b.build())
+        }
+        "Label" => D::Label(if rng.chance(1, 4) { coset::Label::Text(gen_text(rng, cfg)) } else { coset::Label::Int(*rng.pick(LABELS)) }),
+        _ => return None,
+    })
+}
+
+/// Default (empty) value of a type family.
+pub fn default_built(ty: &str) -> Option<crate::endpoints::Decoded> {
+    use crate::endpoints::Decoded as D;
+    Some(match ty {
+        "Header" => D::Header(Default::default()),
+        "ProtectedHeader" => D::Protected(Default::default()),
+        "CoseSignature" => D::Signature(Default::default()),
+        "CoseSign" => D::Sign(Default::default()),
+        "CoseSign1" => D::Sign1(Default::default()),
+        "CoseMac" => D::Mac(Default::default()),
+        "CoseMac0" => D::Mac0(Default::default()),
+        "CoseEncrypt" => D::Encrypt(Default::default()),
+        "CoseEncrypt0" => D::Encrypt0(Default::default()),
+        "CoseRecipient" => D::Recipient(Default::default()),
+        "CoseKey" => D::Key(Default::default()),
+        "CoseKeySet" => D::KeySet(Default::default()),
+        "ClaimsSet" => D::Claims(Default::default()),
+        "PartyInfo" => D::Party(Default::default()),
+        "SuppPubInfo" => D::SuppPub(Default::default()),
+        "CoseKdfContext" => D::Kdf(Default::default()),
+        _ => return None,
+    })
 }
